@@ -223,6 +223,17 @@ class Engine:
             return True
         return self._auto_field(shape, field)
 
+    def note_assumed(self, contract):
+        """every assumed (unchecked) contract that a verified function actually relied on is listed in the evidence"""
+        if getattr(contract, "assumed", False):
+            if not hasattr(self, "used_assumed"):
+                self.used_assumed = {}
+            self.used_assumed[contract.key] = (contract.note or "")[:200]
+        else:
+            if not hasattr(self, "used_contracts"):
+                self.used_contracts = set()
+            self.used_contracts.add(contract.key)
+
     def dont_care_fields(self):
         out = set()
         for sh in self.reg.shapes.values():
